@@ -310,6 +310,12 @@ class WF:
                               f"argument of {n} has the parameter's width {p[1]}")
                 elif p[0] == "op":
                     self.op_width(arg, cenv)
+                    # the parameter is `const HexOp *`: a struct variable is passed by address, a pointer variable / parameter as it is
+                    isptr = {name: ptr for kind, name, term, ptr in self.decls if kind == "op"}
+                    if arg[0] == "id" and arg[1] in isptr and not isptr[arg[1]]:
+                        P.append(("c10:operand", f"call {n}: HexOp struct {arg[1]} passed where a pointer to HexOp is expected (missing '&')"))
+                    elif arg[0] == "addr" and isptr.get(arg[1]):
+                        P.append(("c10:operand", f"call {n}: address of the pointer variable {arg[1]} passed where a pointer to HexOp is expected"))
             return
         P.append(("c10:effect", f"{n}(...) is not an effect"))
 
